@@ -170,7 +170,15 @@ func GetHardenedEnv() []string {
 	// FIX: Ensure return is OUTSIDE the loop so we don't truncate the environment.
 	env := make([]string, 0, len(os.Environ())+7)
 	for _, e := range os.Environ() {
-		upperE := strings.ToUpper(e)
+		// ASCII case folding only: Unicode upper-casing maps other letters onto ASCII ones
+		// (U+017F long s -> S, U+0131 dotless i -> I), which made unrelated variables such as
+		// "GOFLAG\u017f" look like a guarded key and dropped them.
+		upperE := strings.Map(func(r rune) rune {
+			if r >= 'a' && r <= 'z' {
+				return r - ('a' - 'A')
+			}
+			return r
+		}, e)
 		switch {
 		case strings.HasPrefix(upperE, "CGO_ENABLED="),
 			strings.HasPrefix(upperE, "GOPROXY="),
